@@ -24,7 +24,7 @@ from nflows.transforms import made as made_tr
 PROPERTY = "C06"
 RULE = (
     "both MADE copies (transforms/made.py, nn/nde/made.py incl. MixtureOfGaussiansMADE): features 1..4 (thorough 5) x hidden 1..6 x blocks 0..2 x {residual, feed-forward} x "
-    "context {none, 2} x output multiplier 1..3 x batch-norm {off, on} (eval and train, dropout 0 / 0.5 in train); random masks: EVERY torch.randint answer (sorted degree "
+    "context {none, 2} x output multiplier 1..3 x batch-norm {off, on} (eval and train, dropout 0 / 0.5 in train), plus wide networks (300 features x 320 hidden, 257 x 16; mask graph and Jacobian pattern only); random masks: EVERY torch.randint answer (sorted degree "
     "vectors per layer; cap per architecture reported) for feed-forward nets. Per architecture: reachability model from the mask buffers, witness-weight Jacobian pattern of the "
     "real forward, and invariance of block f under replacement of inputs >= f for 2 weight patterns x 2 modes. Non-trivial = features >= 2 (some dependency is allowed and some forbidden)."
 )
@@ -204,6 +204,9 @@ def archs(tier):
     for Fd in feats:
         for H in (1, 2, 3, 4, 5, 6):
             yield Fd, H
+    # wide networks (flattened images): degrees beyond 255 / 256 (a narrow integer type for the degree bookkeeping wraps around)
+    yield 300, 320
+    yield 257, 16
 
 
 def units(tier, seed):
@@ -215,6 +218,10 @@ def units(tier, seed):
 
 
 def arch_list(copy, Fd, H, tier):
+    if Fd >= 100:
+        for blocks, residual in ((1, True), (2, False), (0, False)):
+            yield {"F": Fd, "H": H, "blocks": blocks, "residual": residual, "ctx": False, "mult": 1 if copy != "nde" else 2, "bn": False, "random": False}
+        return
     mults = (1, 2, 3) if copy != "mog" else (1, 2)
     for blocks in (0, 1, 2):
         for residual in (True, False):
@@ -241,7 +248,7 @@ def run_arch(copy, a, tier, seed, res=None, only_choices=None):
             if only_choices is not None and list(choices) != list(only_choices):
                 continue
             vs = check_arch(copy, a, m, choices)
-            if first or vs:
+            if (first or vs) and a["F"] < 100:
                 vs += check_invariance(copy, a, list(choices), seed)
                 first = False
             if res is not None:
